@@ -11,8 +11,9 @@ RULE = ("P1: over every integer matrix of order NN with entries in -Mag..Mag (qu
         "every certificate on the implementation's OWN output in exact arithmetic (so a different valid tie-break is "
         "not an alarm): P A = L U, |L| <= 1, slice = Matrix bit for bit, exact determinant, L lower with positive "
         "diagonal and L L^T = A, rejection of non-PD input, triangular systems inverted; the SPD matrices again times "
-        "2^-80, 2^60, 2^-600 and 2^560: the factor is the factor times the root of the scale, bit for bit. Case class ="
-        " (event kind, matrix class).")
+        "2^-80, 2^60, 2^-600 and 2^560: the factor is the factor times the root of the scale, bit for bit; LU of every "
+        "matrix times 2^-600 and 2^560: same pivots, same L, U times the scale, bit for bit, at slice and Matrix level."
+        " Case class = (event kind, matrix class).")
 ASSUMPTIONS = ["exact certificates need factors that rationalise with denominators <= 4096: order <= 4, small integer entries",
                "a singular positive semi-definite matrix is on the rounding boundary of 'not positive definite': either outcome accepted",
                "orders 5..32 and cond 1e8 are outside the exact domain (see C01 for the scaled-residual observation)"]
